@@ -20,7 +20,7 @@ ASSUMPTIONS = ["legal burst requests held stable until consumed: burst type FIXE
                "converters: full-width bursts (size = master bus width), INCR for the data-level check; narrow/FIXED/over-long WRAP requests are judged separately and listed",
                "up-conversion: the wide window must contain the narrow one (a byte-count equality would be too strong for an odd number of beats)"]
 BOUNDS = {"quick": "Burst2Beat: one inductive step from arbitrary state (unbounded len) + BMC K=10; converter formulas: combinational; data-level BMC K=16, ratio 2",
-          "thorough": "as quick + BMC K=24 for Burst2Beat, data-level BMC K=28 ratios 2 (both directions) and 4 (down)"}
+          "thorough": "as quick + BMC K=20 for Burst2Beat (K=24 went unknown after 900 s on a loaded machine), data-level BMC K=22 ratio 2 (both directions) and K=26 ratio 4 (down)"}
 OUTSIDE = "address widths other than 12 bits for the inductive argument (the arithmetic is width-generic); converter ratio 8 data path"
 FUNCS = ["litex.soc.interconnect.axi.axi_full.AXIBurst2Beat", "litex.soc.interconnect.axi.axi_full.AXIUpConverter", "litex.soc.interconnect.axi.axi_full.AXIDownConverter",
          "litex.soc.interconnect.axi.axi_full.AXIConverter", "litex.soc.interconnect.stream.StrideConverter"]
@@ -167,7 +167,7 @@ def build_b2b_bmc(K):
     m.comb += held.eq(~pend | (m.burst.valid & (par == pp)))
     return H("burst2beat_bmc", m, m.free + m.rig, assume=[m.asm, held],
              bad=dict(beat_address_is_amba_closed_form=m.bad_addr, first_last_valid_id=m.bad_fl, request_consumed_on_last_beat=m.bad_consume),
-             witness=dict(wrap4_burst_completed=m.w), K=K, funcs=FUNCS, cfg=dict(address_bits=12), show=m.showl, vcycles=30)
+             witness=dict(wrap4_burst_completed=m.w), K=K, funcs=FUNCS, cfg=dict(address_bits=12), show=m.showl, vcycles=30, timeout_s=2400)
 
 
 # --------------------------------------------------------------------------------------------------
@@ -285,7 +285,7 @@ def jobs(tier):
     js = [Job("burst2beat_inductive_step", build_b2b_step, {}, cost=5), Job("burst2beat_invariant_initial", build_b2b_init, {}, cost=1),
           Job("burst2beat_inductive_step_aw16_size7", build_b2b_step, dict(aw=16, maxsize=7), cost=10), Job("burst2beat_invariant_initial_aw16_size7", build_b2b_init, dict(aw=16, maxsize=7), cost=1),
           Job("burst2beat_inductive_step_aw40", build_b2b_step, dict(aw=40, maxsize=3), cost=10), Job("burst2beat_invariant_initial_aw40", build_b2b_init, dict(aw=40, maxsize=3), cost=1),
-          Job("burst2beat_bmc", build_b2b_bmc, dict(K=24 if T else 10), cost=20 if T else 5),
+          Job("burst2beat_bmc", build_b2b_bmc, dict(K=20 if T else 10), cost=20 if T else 5),
           Job("axi_conv_req_64to32", build_convreq, dict(dwm=64, dws=32), cost=2), Job("axi_conv_req_32to64", build_convreq, dict(dwm=32, dws=64), cost=2),
           Job("axi_conv_req_32to8", build_convreq, dict(dwm=32, dws=8), cost=2),
           Job("axi_conv_data_16to8", build_conv_data, dict(dwm=16, dws=8, depth_s=8, K=22 if T else 16, maxlen=1), cost=60, timeout_s=3500),
